@@ -55,3 +55,14 @@ Theorem C04_fill_footprint :
   cov out yy c ->
   (exists e, In e (active_at es yy) /\ (rx e <= c)%Z) /\ (exists e, In e (active_at es yy) /\ (c < rx e)%Z).
 Proof. exact fill_footprint. Qed.
+
+(* the same for paths with quadratic segments (Model/CurveFill.v; rows balanced by C02_quad_path_balanced) *)
+From TS Require Import Model.CurveFill Proofs.CurveFillProofs.
+Theorem C04_quad_fill_footprint :
+  forall p es start stop rc eo out,
+  build_edges_curves p 0 = Some (Some es) -> ~ In Cubic (pverbs p) -> fill_spans es start stop rc eo 0 = Some out ->
+  (forall e, In e es -> (start <= e_first_y e)%Z) -> (0 <= start)%Z -> (0 <= stop)%Z ->
+  forall yy c, (start <= yy)%Z -> ((yy < stop)%Z \/ yy = start) -> (forall e, In e (active_at es yy) -> x_ok e) ->
+  cov out yy c ->
+  (exists e, In e (active_at es yy) /\ (rx e <= c)%Z) /\ (exists e, In e (active_at es yy) /\ (c < rx e)%Z).
+Proof. exact quad_fill_footprint. Qed.
